@@ -35,6 +35,17 @@ mod state;
 
 /// One model value unit = 15 grin, so that the 60-grin reward is 4 units (DESIGN 2.4).
 const UNIT: u64 = 15_000_000_000;
+/// FeeFields::FEE_MASK: the largest fee one kernel can carry, in nanogrin
+const FEE_MAX: u64 = (1u64 << 40) - 1;
+
+/// Model amount -> nanogrin. A model amount is written in three digits (spec/TxBalance.tla):
+/// v = a + 1000*b + 1000000*c  stands for  a*15 grin + b*(2^40-1) nanogrin + c*1 nanogrin.
+/// Every amount below 1000 is a plain multiple of 15 grin.
+fn amount(v: i64) -> u64 {
+	assert!(v >= 0, "negative amount");
+	let v = v as u64;
+	(v % 1000) * UNIT + ((v / 1000) % 1000) * FEE_MAX + (v / 1_000_000)
+}
 
 fn main() {
 	quiet_panics();
@@ -105,8 +116,8 @@ fn commit(v: i64, r: i64) -> Commitment {
 	assert!(v >= 0);
 	let secp = static_secp_instance();
 	match scalar(r) {
-		Some(k) => secp.lock().commit(v as u64 * UNIT, k).expect("commit"),
-		None => secp.lock().commit_value(v as u64 * UNIT).expect("commit_value"),
+		Some(k) => secp.lock().commit(amount(v), k).expect("commit"),
+		None => secp.lock().commit_value(amount(v)).expect("commit_value"),
 	}
 }
 
@@ -144,7 +155,7 @@ impl ModelSecp {
 		let secp = static_secp_instance();
 		let secp = secp.lock();
 		let nonce = SecretKey::from_slice(&secp, &nb).expect("nonce");
-		let p = secp.bullet_proof(v as u64 * UNIT, k, nonce.clone(), nonce, None, None);
+		let p = secp.bullet_proof(amount(v), k, nonce.clone(), nonce, None, None);
 		drop(secp);
 		self.proofs.insert((v, r), p);
 		self.proofs_made += 1;
@@ -167,7 +178,7 @@ impl ModelSecp {
 		let secp = static_secp_instance();
 		let secp = secp.lock();
 		let nonce = SecretKey::from_slice(&secp, &nb).expect("nonce");
-		let p = secp.bullet_proof(v as u64 * UNIT, k, nonce.clone(), nonce, None, None);
+		let p = secp.bullet_proof(amount(v), k, nonce.clone(), nonce, None, None);
 		drop(secp);
 		self.alt_proofs.insert((v, r, pv), p);
 		self.proofs_made += 1;
@@ -203,7 +214,7 @@ impl ModelSecp {
 		let fee = if fee_units == 0 {
 			FeeFields::zero()
 		} else {
-			FeeFields::try_from(fee_units as u64 * UNIT).expect("fee fields")
+			FeeFields::try_from(amount(fee_units)).expect("fee fields")
 		};
 		match k["kind"].as_str().unwrap() {
 			"plain" => KernelFeatures::Plain { fee },
